@@ -14,7 +14,7 @@ SP3  within one traversal the memo is read and written at the same type.
 """
 from collections import defaultdict
 from . import mir
-from .base import inst, OK, VIOLATION, UNDECIDED, strip
+from .base import verdict_of, errtext, inst, OK, VIOLATION, UNDECIDED, strip
 from .facts import CheckerError
 from .mir import show
 
@@ -223,6 +223,38 @@ def sp2(prog, fns, leaky):
                             "clear_scratch's short-circuit would stop above marked descendants"))
     if n < 4:
         raise CheckerError("SP2: expected >= 4 recursive descents in BDD traversal helpers, found %d" % n)
+    # the BDD clear itself: a node whose slot it empties has *both* children cleared, on every path.  A traversal
+    # marks a node and then its children whatever their sign or kind; the three builders differ in which edges may be
+    # complemented, so a descent that depends on the shape of the child pointer is complete for some builders only.
+    bclear = [f for f in prog.lib_fns if f.name == "clear_scratch" and f.impl_self == SCRATCH_OWNERS[0]]
+    node = prog.adts.get("repr::bdd::BddNode")
+    if len(bclear) == 1 and node:
+        f = bclear[0]
+        te, cfg = f.terms, f.cfg
+        kids = [fl["name"] for v in node["variants"] for fl in v["fields"] if "BddPtr" in fl["ty"]]
+        slot = [fl["name"] for v in node["variants"] for fl in v["fields"] if "RefCell" in fl["ty"] and "Any" in fl["ty"]]
+        writes = {cs.bb for cs in te.calls if cs.callee.name in ("borrow_mut", "take", "replace", "set", "replace_with")
+                  and cs.args and slot and show(cs.args[0]).endswith("." + slot[0])}
+        errs = []
+        if not writes or not kids:
+            errs.append("?the write of the node's slot was not found in %s" % f.npath)
+        for k in kids:
+            desc = {cs.bb for cs in te.calls if cs.callee.name == "clear_scratch" and cs.args and show(cs.args[0]).endswith("." + k)}
+            for w in sorted(writes):
+                if w in desc:
+                    continue
+                tgt = cfg.succ[w]
+                reach = set()
+                for s_ in tgt:
+                    reach |= cfg.reachable_from(s_, avoid=desc)
+                if any(r in reach for r in cfg.returns):
+                    errs.append("clear_scratch empties a node's slot and can return without clearing below its `%s` child: the "
+                                "short-circuit (stop at an empty slot) will never come back to that sub-diagram, and the next "
+                                "query reads what the previous one left there" % k)
+        out.append(inst("SP", "SP2:%s:both-children" % f.npath, verdict_of(sorted(set(errs))), f, None,
+                        errtext(sorted(set(errs))) if errs else "every node whose slot is emptied has %s cleared on every path" % " and ".join(kids)))
+    else:
+        out.append(inst("SP", "SP2:bdd-clear-scratch:both-children", UNDECIDED, None, None, "BddPtr::clear_scratch or BddNode not found"))
     return out
 
 
